@@ -260,20 +260,21 @@ func NBitsNth(target *big.Int, width, nth int, forged func(v *big.Int, n int) []
 	var mu sync.Mutex
 	seen := 0
 	return func(q *big.Int, in []*big.Int, out []*big.Int) error {
-		if in[0].Cmp(target) == 0 && len(out) == width {
-			mu.Lock()
-			k := seen
-			seen++
-			mu.Unlock()
-			if k == nth {
-				f := forged(in[0], len(out))
-				for i := range out {
-					out[i].Set(f[i])
-				}
+		if (target == nil || in[0].Cmp(target) == 0) && (width == 0 || len(out) == width) {
+			if f := forged(in[0], len(out)); f != nil { // nil: this call cannot carry the forgery (too narrow)
 				mu.Lock()
-				*fired++
+				k := seen
+				seen++
 				mu.Unlock()
-				return nil
+				if k == nth || nth < 0 {
+					for i := range out {
+						out[i].Set(f[i])
+					}
+					mu.Lock()
+					*fired++
+					mu.Unlock()
+					return nil
+				}
 			}
 		}
 		return bits.NBits(q, in, out)
